@@ -353,6 +353,12 @@ func genSynthExperiment(r *rand.Rand, pool []*genetics.Genome) *synthExperiment 
 				age: append([]float64{}, gen.Age...), complexity: append([]float64{}, gen.Complexity...), speciesAge: sp.Age}
 			if gen.Solved {
 				gen.WinnerNodes, gen.WinnerGenes, gen.WinnerEvals = len(g.Nodes), g.Extrons(), 1+r.Intn(5000)
+				switch r.Intn(6) {
+				case 0: // an evaluator that reports the number of evaluations only: the size of the winner is left at zero
+					gen.WinnerNodes, gen.WinnerGenes = 0, 0
+				case 1:
+					gen.WinnerGenes = 0
+				}
 				sg.winner = [3]int{gen.WinnerNodes, gen.WinnerGenes, gen.WinnerEvals}
 			}
 			tr.Generations = append(tr.Generations, gen)
